@@ -161,6 +161,9 @@ fn job_command(j: &Job, b: &Built, scratch: &Path) -> Option<Command> {
             args(&mut c, "small");
             c.current_dir(FFIDRV);
             c.env("MIRIFLAGS", "-Zmiri-disable-isolation");
+            if j.calls >= 100 {
+                c.env("FFIDRV_SECOND_CTX", "1");
+            }
             Some(c)
         }
         "valgrind" => {
@@ -184,7 +187,7 @@ fn run_jobs(jobs: Vec<Job>, b: &Built, logs: &Path, scratch: &Path, par: usize) 
                 let log = logs.join(format!("{}-{}.log", j.engine, j.seed));
                 let t0 = Instant::now();
                 let status = match job_command(&j, b, scratch) {
-                    Some(c) => run_logged(c, &log, Duration::from_secs(if j.engine == "miri" { 5400 } else { 1800 })),
+                    Some(c) => run_logged(c, &log, Duration::from_secs(match j.engine { "miri" => 5400, "valgrind" => 1800, "asan" => 900, _ => 300 })),
                     None => Err("engine not built".into()),
                 };
                 let summary = std::fs::read_to_string(&log).ok().and_then(|s| s.lines().rev().find(|l| l.starts_with('{') && (l.contains("\"ffidrv\"") || l.contains("\"cdrv\""))).and_then(|l| serde_json::from_str::<Value>(l).ok()));
